@@ -27,6 +27,10 @@ def main():
     if subprocess.run("git -C /repo apply " + patch, shell=True).returncode != 0:
         print("patch does not apply")
         return 2
+    import shutil
+    ev, evbak = os.path.join(ROOT, "evidence"), os.path.join(ROOT, ".cache", "evidence.bak")
+    shutil.rmtree(evbak, ignore_errors=True)
+    shutil.copytree(ev, evbak)
     try:
         verif.build()
         run = verif.pipeline(1, "quick")
@@ -52,6 +56,9 @@ def main():
                          "ok" if line.startswith("OK") else line[:100])
     finally:
         subprocess.run("git -C /repo checkout -- .", shell=True)
+        # evidence written while the seeded change was applied must not replace the real evidence
+        shutil.rmtree(ev, ignore_errors=True)
+        shutil.copytree(evbak, ev)
     meta = {"breaks_property": prop, "needs_to_manifest": needs,
             "what_was_run": "tools/seed_validate.sh (existing suite green with the change; demonstration fails with it and passes "
                             "without); tools/seed_record.py: git apply to /repo, one quick pipeline run (every monitor on the "
